@@ -287,5 +287,8 @@ def harnesses(tier, seed):
             hs.append(Harness(f"history.{name}.{alpha}", "props.l7", ps, call + "[0]", replay_call=call,
                               setup=f"C = case({name!r}, {n}, {alpha!r})",
                               what=f"operation history on {name} ({alpha})",
+                              samples=[([0, 1, 2], 1) + ((False, 0, 1) if th else ()),
+                                       ([1, 0, 3], 100) + ((True, 1, 0) if th else ()),
+                                       ([2, 4, 0], 7) + ((False, 2, 2) if th else ())],
                               key=lambda a, k, nm=name, al=alpha: f"history:{nm}:{al}:" + ",".join(str(o) for o in a[0])))
     return hs
